@@ -638,7 +638,9 @@ impl Gen {
             30 => (b"GET / HTTP/1.1\r\nHost: x\r\nContent-Length: 1\r\nContent-Length: 1, 1\r\n\r\nx".to_vec(), 400, "bad.content-length-list"),
             31 => (b"G#T / HTTP/1.1\r\nHost: x\r\n\r\n".to_vec(), 400, "bad.method-char-http-crate"),
             32 => (b"GET / HTTP/1.1\nHost: x\r\rX: y\r\n\r\n".to_vec(), 400, "bad.cr-without-lf"),
-            33 => (b"GET / HTTP/1.1\r\nHost: x\r\n\rX".to_vec(), 400, "bad.cr-x-at-end"),
+            // every malformed head is followed by an empty line: hyper only re-parses a head that arrived in pieces once
+            // it sees the end-of-head marker (`is_complete_fast`), so without one the verdict would depend on segmentation
+            33 => (b"GET / HTTP/1.1\r\nHost: x\r\n\rX\r\n\r\n".to_vec(), 400, "bad.cr-x-at-end"),
             34 => (b"\r\rGET / HTTP/1.1\r\n\r\n".to_vec(), 400, "bad.leading-cr-cr"),
             35 => (b"GET http://exa mple/ HTTP/1.1\r\n\r\n".to_vec(), 400, "bad.space-in-target"),
             36 => (b"GET / HTTP/1.1\r\nHost: x\r\nX y: z\r\n\r\n".to_vec(), 400, "bad.space-in-header-name"),
